@@ -32,6 +32,14 @@ def _spawn_bitgens(bitgen, n_bitgens):
     return bitgens
 
 
+def _peek_bitgens(bitgen, n_bitgens):
+    """The bit generators ``_spawn_bitgens`` would return, without advancing ``bitgen``."""
+    import copy
+
+    seeds = copy.deepcopy(bitgen._seed_seq).spawn(n_bitgens)
+    return [type(bitgen)(seed) for seed in seeds]
+
+
 def _apply_random_func(rng, funcname, bitgen, size, args, kwargs):
     """Apply random module method with seed"""
     if isinstance(bitgen, np.random.SeedSequence):
@@ -95,9 +103,13 @@ class Random(IO):
 
     @cached_property
     def _info(self):
+        # ``rng`` is the frozen snapshot taken when the array was created (see
+        # ``_wrap_func``); deriving the per-block seeds must not advance it, or a
+        # rewrite that re-instantiates this node (array-valued parameters get
+        # lowered, the node is unpickled, ...) would draw a different realization.
         sizes = list(product(*self._base_chunks))
         if isinstance(self.rng, Generator):
-            bitgens = _spawn_bitgens(self.rng._bit_generator, len(sizes))
+            bitgens = _peek_bitgens(self.rng._bit_generator, len(sizes))
             bitgen_token = tokenize(bitgens)
             bitgens = [_bitgen._seed_seq for _bitgen in bitgens]
             func_applier = _apply_random_func
@@ -108,7 +120,9 @@ class Random(IO):
             # root RNG via one SeedSequence — deterministic from the root, so
             # recompute is stable and da.random.seed still controls it — and let
             # the worker rebuild the state (see _apply_random).
-            root_entropy = int.from_bytes(self.rng._numpy_state.bytes(16), "little")
+            import copy
+
+            root_entropy = int.from_bytes(copy.deepcopy(self.rng._numpy_state).bytes(16), "little")
             words = (
                 np.random.SeedSequence(root_entropy)
                 .generate_state(len(sizes) * 4, dtype=np.uint32)
